@@ -199,3 +199,120 @@ Proof.
     destruct (sc_holds sc); [|exact E2]. rewrite (frame_look _ _ m (proj1 (vref_drop_frame _ _))). exact E2.
 Qed.
 End Look.
+
+(* ------------------------------------------------------------------------------------------
+   3. which events leave a cursor's record, and the current memtable, alone *)
+Definition about (cid : N) (e : event) : bool :=
+  match e with EOpen c _ _ | EStep c _ | EClose c => N.eqb c cid | _ => false end.
+
+Lemma find_scan_scans s s' cid : ms_scans s' = ms_scans s -> find_scan s' cid = find_scan s cid.
+Proof. intros E. unfold find_scan. now rewrite E. Qed.
+
+Lemma write_fold_fields n b : forall s,
+  let s' := fold_left (fun s1 kv => upd_mt (mt_insert (mkE (fst kv) n (snd kv))) (ms_mem s1) s1) b s in
+  ms_scans s' = ms_scans s /\ ms_mem s' = ms_mem s /\ ms_imm s' = ms_imm s.
+Proof.
+  induction b as [|kv b IH]; intros s; cbn [fold_left]; cbn zeta; [auto|].
+  destruct (IH (upd_mt (mt_insert (mkE (fst kv) n (snd kv))) (ms_mem s) s)) as [A [B C]]. cbn zeta in *. auto.
+Qed.
+Lemma fold_upd_fields g ms : forall s,
+  let s' := fold_left (fun s m => upd_mt g m s) ms s in
+  ms_scans s' = ms_scans s /\ ms_mem s' = ms_mem s /\ ms_vers s' = ms_vers s /\ ms_cur s' = ms_cur s.
+Proof.
+  induction ms as [|m ms IH]; intros s; cbn [fold_left]; cbn zeta; [auto|].
+  destruct (IH (upd_mt g m s)) as [A [B [C D]]]. cbn zeta in *. auto.
+Qed.
+
+Lemma find_scan_app l x cid : sc_id x <> cid ->
+  find (fun y => N.eqb (sc_id y) cid) (l ++ [x]) = find (fun y => N.eqb (sc_id y) cid) l.
+Proof.
+  intros Hne. rewrite ProofsLeaf.find_app. destruct (find _ l); [reflexivity|]. cbn [find].
+  destruct (N.eqb (sc_id x) cid) eqn:E; [apply N.eqb_eq in E; contradiction|reflexivity].
+Qed.
+Lemma find_scan_map (f : scan -> scan) l cid :
+  (forall y, N.eqb (sc_id (f y)) cid = N.eqb (sc_id y) cid) -> (forall y, sc_id y = cid -> f y = y) ->
+  find (fun y => N.eqb (sc_id y) cid) (map f l) = find (fun y => N.eqb (sc_id y) cid) l.
+Proof.
+  intros H1 H2. induction l as [|y r IH]; [reflexivity|]. cbn [map find]. rewrite H1.
+  destruct (N.eqb (sc_id y) cid) eqn:E; [|exact IH]. apply N.eqb_eq in E. now rewrite (H2 y E).
+Qed.
+Lemma find_scan_filter l c' cid : c' <> cid ->
+  find (fun y => N.eqb (sc_id y) cid) (filter (fun y => negb (N.eqb (sc_id y) c')) l) = find (fun y => N.eqb (sc_id y) cid) l.
+Proof.
+  intros Hne. induction l as [|y r IH]; [reflexivity|]. cbn [filter find].
+  destruct (N.eqb (sc_id y) c') eqn:E; cbn [negb find].
+  - apply N.eqb_eq in E. destruct (N.eqb (sc_id y) cid) eqn:E2; [apply N.eqb_eq in E2; congruence|exact IH].
+  - destruct (N.eqb (sc_id y) cid); [reflexivity|exact IH].
+Qed.
+
+Section Frames.
+Variable c : cfg.
+
+Lemma scan_frame s e cid : about cid e = false -> find_scan (fst (mstep c s e)) cid = find_scan s cid.
+Proof.
+  intros Ha. destruct e as [b| |fid|levels|fs|fs|c' lo hi|c' o|c']; cbn [mstep about] in *.
+  - cbn [fst]. unfold do_write. cbv zeta. apply find_scan_scans. cbn [ms_scans]. apply write_fold_fields.
+  - destruct (ms_imm s); reflexivity.
+  - destruct (ms_imm s) as [im|]; [|reflexivity]. cbn [fst]. unfold do_flushdone. cbv zeta.
+    apply find_scan_scans. unfold clear_imm. cbn [ms_scans upd_mt set_mts]. apply install_new_frame.
+  - cbn [fst]. apply find_scan_scans. apply install_new_frame.
+  - reflexivity.
+  - reflexivity.
+  - apply N.eqb_neq in Ha. destruct (find_scan s c'); [reflexivity|]. unfold do_open. cbv zeta.
+    set (s2 := fold_left (fun s m => upd_mt mt_add_iter m s) (open_mems s) (take_snapshot s)).
+    assert (ms_scans s2 = ms_scans s) as E2 by (unfold s2; rewrite (proj1 (fold_upd_fields mt_add_iter (open_mems s) (take_snapshot s))); reflexivity).
+    destruct (freed_any s2 (open_mems s)); [now apply find_scan_scans|].
+    destruct (negb (forallb (openable s2) _)); [now apply find_scan_scans|]. cbn [fst].
+    assert (forall s3, ms_scans s3 = ms_scans s ->
+              find_scan (set_scans s3 (ms_scans s3 ++ [mkScan c' (ms_vis s) (open_mems s) (ms_cur s) (cf_holds_ver c)
+                (scan_new (cf_fuel c) lo hi (ms_vis s) (map (fun m => (m, look_of s2 m)) (open_mems s)) (cur_levels s2))])) cid = find_scan s cid) as H.
+    { intros s3 E3. unfold find_scan. cbn [ms_scans set_scans]. rewrite E3. apply find_scan_app. cbn [sc_id]. exact Ha. }
+    destruct (cf_holds_ver c).
+    + destruct (cf_cache c); apply H; [reflexivity|exact E2].
+    + rewrite (find_scan_scans _ _ cid (proj1 (proj2 (proj2 (proj2 (proj2 (proj2 (proj2 (proj1 (vref_drop_frame _ _)))))))))).
+      destruct (cf_cache c); apply H; [reflexivity|exact E2].
+  - apply N.eqb_neq in Ha. destruct (find_scan s c') as [sc|]; [|reflexivity]. unfold do_step. cbv zeta.
+    destruct (freed_any s (xmems (sc_x sc))); [reflexivity|].
+    destruct (negb (forallb (openable s) _)); [reflexivity|]. cbn [fst].
+    unfold put_scan, find_scan. cbn [ms_scans set_scans].
+    assert (ms_scans (if cf_cache c then set_cache s (opened_between (sc_x sc) (scan_step (cf_fuel c) o (xrefresh (look_of s) (sc_x sc))) ++ ms_cache s) else s) = ms_scans s) as ->
+      by (destruct (cf_cache c); reflexivity).
+    apply find_scan_map.
+    + intros y. destruct (N.eqb (sc_id y) c') eqn:E; [|reflexivity]. cbn [sc_id]. apply N.eqb_eq in E. rewrite E. reflexivity.
+    + intros y Hy. destruct (N.eqb (sc_id y) c') eqn:E; [|reflexivity]. apply N.eqb_eq in E. congruence.
+  - apply N.eqb_neq in Ha. destruct (find_scan s c') as [sc|]; [|reflexivity]. cbn [fst]. unfold do_close. cbv zeta.
+    set (s1 := set_scans s _).
+    assert (find_scan (fold_left (fun s m => upd_mt (mt_drop_iter c) m s) (sc_mems sc) s1) cid = find_scan s cid) as E2.
+    { rewrite (find_scan_scans _ s1) by apply (fold_upd_fields (mt_drop_iter c) (sc_mems sc) s1).
+      unfold find_scan, s1. cbn [ms_scans set_scans]. now apply find_scan_filter. }
+    destruct (sc_holds sc); [|exact E2].
+    rewrite (find_scan_scans _ _ cid (proj1 (proj2 (proj2 (proj2 (proj2 (proj2 (proj2 (proj1 (vref_drop_frame _ _)))))))))). exact E2.
+Qed.
+
+Lemma mem_frame s e : e <> ERollover -> ms_mem (fst (mstep c s e)) = ms_mem s.
+Proof.
+  intros Hne. destruct e as [b| |fid|levels|fs|fs|c' lo hi|c' o|c']; cbn [mstep]; try congruence.
+  - cbn [fst]. unfold do_write. cbv zeta. cbn [ms_mem]. apply write_fold_fields.
+  - destruct (ms_imm s) as [im|]; [|reflexivity]. cbn [fst]. unfold do_flushdone. cbv zeta.
+    unfold clear_imm. cbn [ms_mem upd_mt set_mts]. apply install_new_frame.
+  - cbn [fst]. apply install_new_frame.
+  - reflexivity.
+  - reflexivity.
+  - destruct (find_scan s c'); [reflexivity|]. unfold do_open. cbv zeta.
+    set (s2 := fold_left (fun s m => upd_mt mt_add_iter m s) (open_mems s) (take_snapshot s)).
+    assert (ms_mem s2 = ms_mem s) as E2 by (unfold s2; rewrite (proj1 (proj2 (fold_upd_fields mt_add_iter (open_mems s) (take_snapshot s)))); reflexivity).
+    destruct (freed_any s2 (open_mems s)); [exact E2|].
+    destruct (negb (forallb (openable s2) _)); [exact E2|]. cbn [fst].
+    destruct (cf_holds_ver c).
+    + destruct (cf_cache c); exact E2.
+    + rewrite (proj1 (proj2 (proj2 (proj1 (vref_drop_frame _ _))))). destruct (cf_cache c); exact E2.
+  - destruct (find_scan s c') as [sc|]; [|reflexivity]. unfold do_step. cbv zeta.
+    destruct (freed_any s (xmems (sc_x sc))); [reflexivity|].
+    destruct (negb (forallb (openable s) _)); [reflexivity|]. cbn [fst]. destruct (cf_cache c); reflexivity.
+  - destruct (find_scan s c') as [sc|]; [|reflexivity]. cbn [fst]. unfold do_close. cbv zeta.
+    set (s1 := set_scans s _).
+    assert (ms_mem (fold_left (fun s m => upd_mt (mt_drop_iter c) m s) (sc_mems sc) s1) = ms_mem s) as E2
+      by (rewrite (proj1 (proj2 (fold_upd_fields (mt_drop_iter c) (sc_mems sc) s1))); reflexivity).
+    destruct (sc_holds sc); [|exact E2]. rewrite (proj1 (proj2 (proj2 (proj1 (vref_drop_frame _ _))))). exact E2.
+Qed.
+End Frames.
